@@ -60,7 +60,8 @@ theorem C37_specTokens_consistent :
 `hdrTable` is hand-written; this theorem ties it to the struct declarations of the toolchain's
 go/ast (regenerated): every field whose static type is a node type (`Expr`, `*Ident`, `[]Expr`,
 `*FieldList`, …) or a scalar shown in source (`string`, `token.Token`, `ChanDir`, `bool` other
-than `Incomplete`) must be a header field of the matching role, positions may only be flags,
+than `Incomplete` — false in parser output — and `Slice3` — go/printer prints the third index
+iff `Max ≠ nil`) must be a header field of the matching role, positions may only be flags,
 comments/bodies/objects are never header fields, and every expression/spec/declaration kind of
 go/ast except `Bad*` is a supported kind.  (A child field added to go/ast, as `TypeParams` was,
 makes this fail until the specification — and then the converters — know it.) -/
@@ -95,7 +96,7 @@ def fieldCovered (k f ty : String) : Bool :=
   | .must r => s == some r
   | .posOnly => s == none || s == some .flag
   | .never => s == none
-  | .boolAtom => (f == "Incomplete" && s == none) || s == some .atom
+  | .boolAtom => ((f == "Incomplete" || f == "Slice3") && s == none) || s == some .atom
   | .unknown => false
 
 def structOf (k : String) : Option (List (String × String)) :=
